@@ -9,12 +9,13 @@
 #define ENV_NFAULT	16
 #define ENV_LOGSZ	256
 #define ENV_NMARK	8
+#define ENV_NAMESZ	1100	/* longer paths: ENAMETOOLONG */
 #define ENV_OK		0
 #define ENV_FAIL	1
 #define ENV_SHORT	2
 
 struct efile {
-	char name[40];
+	char name[ENV_NAMESZ];
 	char *data;
 	long len, cap;
 	int exists;
